@@ -10,9 +10,11 @@ from common import (VERIF, COQ, log, translate, make, failed_files, compile_prop
 
 TRUSTED_BASE = [
     "Coq 8.16.1 kernel and its VM (vm_compute); no native_compute",
-    "translate/py2v.py (+ f902v.py): Python ast -> coq/Gen/*.v; Fortran tokenizer for parameter constants/declared types",
+    "translators: translate/py2v.py (constants, tables, dispatch literals by AST shape), translate/py2v_more.py (scalar functions -> Base/PyVal.v `val` semantics, which is mine: Python float arithmetic read as exact rational arithmetic, comparisons, tuples, raise -> VErr), translate/f902v.py (Fortran parameter constants, declared types, shim bindings)",
     "harness correspondence: exact-input generators, float.hex transport, CPython Fraction(float) exactness",
-    "speedup built from /repo/src/fortran and _speedup.c with the repository's Release flags (gfortran -O3 -march=native, gcc -O2)",
+    "speedup built from /repo/src/fortran and _speedup.c with the repository's Release flags except -march=native (TARGET_NATIVE_ARCH=OFF, as the shipped wheel): gfortran -O3, gcc -O2",
+    "no Extraction is used (the model is evaluated inside Coq by vm_compute on generated case files; comparison done in Coq, only bad indices printed)",
+    "exact rational oracles harness/oracle_q.py and harness/isect_oracle.py (Sturm isolation) are used by support sweeps and failing-input search only, never as the reason a property holds",
     "NumPy/BLAS, gfortran runtime, CPython 3.12",
 ]
 
